@@ -244,6 +244,8 @@ def run(ctx):
         vi = ix.inline(v)
         if cap_field(vi, name):
             return True
+        if tag(vi) == "call" and payload(vi)[0].endswith("Integer::new_positive"):
+            return cap_field(kids(vi)[0], name)
         if tag(vi) == "agg" and payload(vi)[0].endswith("integer::Integer"):
             neg = sym.field(vi, "negative")
             return cap_field(sym.field(vi, "value"), name) and tag(neg) == "bool" and not payload(neg)[0]
@@ -334,8 +336,9 @@ def run(ctx):
                 for ptr, v in [(k2, v2) for p2 in ix.ok_paths(e.target) for (k2, v2) in p2.ptr_out.items()]:
                     if tag(v) == "rec" and "open_interest_notional" in payload(v):
                         amt = [ix.inline(a) for a in e.args]
-                        if any(tag(x) == "agg" and payload(x)[0].endswith("integer::Integer") and tag(sym.field(x, "negative")) == "bool"
-                               and not payload(sym.field(x, "negative"))[0] for x in amt):
+                        if any((tag(x) == "call" and payload(x)[0].endswith("Integer::new_positive")) or
+                               (tag(x) == "agg" and payload(x)[0].endswith("integer::Integer") and tag(sym.field(x, "negative")) == "bool"
+                                and not payload(sym.field(x, "negative"))[0]) for x in amt):
                             called = True
         if not called:
             oi_bad = oi_bad or q
